@@ -93,4 +93,20 @@ REGISTRY = {
         "assumptions": TOK_ASSUME + ["structure is compared on the reference tokenization of output and input (kinds, names, attribute names and values with &quot; undone, comment data); text content is compared with &lt; &gt; &amp; undone, in data / RCDATA context",
                                      "'cannot be decoded differently in another supported encoding' rests on the assumption, stated in DESIGN.md, that no multi-byte trail byte of a supported encoding equals a structural ASCII byte; not re-checked here"],
     },
+    "C10": {
+        "level": "model_checking",
+        "traces": [{"job": "c10", "module": "TraceMem", "cfg": "TraceMem.cfg", "timeout": 1200, "timeout_thorough": 10800}],
+        "mc": [],
+        "assumptions": ["accounted usage is read through the _verif_hooks accessor after every write(); the open-element stack item size is read from the build through the same hook",
+                        "'demonstrably held' = bytes written minus bytes emitted (pass-through configurations, ASCII input) plus open elements x item size when selectors are registered",
+                        "limits below the preallocation are excluded (Arena::new documents preallocation <= limit as a precondition via debug_assert; see DESIGN.md S6)"],
+    },
+    "C11": {
+        "level": "model_checking",
+        "traces": [{"job": "c11", "module": "TraceBail", "cfg": "TraceBail.cfg", "timeout": 1200, "timeout_thorough": 10800}],
+        "mc": [],
+        "assumptions": ["the failure-free run of the same configuration and chunking is the reference for 'normally rewritten output' (product record)",
+                        "for handler failures p (failing token start) and q (sink length when the invocation started) are observed; for memory failures they are existentially quantified by the judge",
+                        "the two documented exceptions (content being removed; text handler failing on a later chunk) are explicit disjuncts of the contract"],
+    },
 }
